@@ -123,7 +123,9 @@ func (g *gen) sign(key int, chainID string, msgType int32, height int64, round i
 // ------------------------------------------------------------------ base case
 
 type base struct {
+	stream  string
 	idx     int
+	sample  int // variant to write out as a sample, -1 none
 	chainID string
 	height  int64
 	round   int32
@@ -406,7 +408,10 @@ func randBlockID(r *rand.Rand) types.BlockID {
 
 func (g *gen) makeBase(r *rand.Rand, idx int) *base {
 	c := g.c
-	b := &base{idx: idx}
+	b := &base{stream: stream, idx: idx, sample: -1}
+	if idx < 3 {
+		b.sample = 1
+	}
 	n := sizeN(r, c.Thorough())
 	b.chainID = fmt.Sprintf("chain-%x", r.Int63n(1<<uint(4+r.Intn(40))))
 	if r.Intn(30) == 0 {
@@ -1121,7 +1126,7 @@ func (g *gen) witness(b *base, vi int, v *variant, extra map[string]interface{})
 			"timestamp": s.Timestamp.UTC().Format(time.RFC3339Nano), "signature": hex.EncodeToString(s.Signature)}
 	}
 	w := map[string]interface{}{
-		"stream": stream, "case": b.idx, "variant": vi, "seed": g.c.Seed, "mutations": v.muts,
+		"stream": b.stream, "case": b.idx, "variant": vi, "seed": g.c.Seed, "mutations": v.muts,
 		"power_distribution": b.dist, "tuned_to": b.tuned,
 		"call": map[string]interface{}{"chain_id": v.chainID, "height": v.height, "block_id": bidJ(v.blockID),
 			"trust_level": fmt.Sprintf("%d/%d", v.tl.Numerator, v.tl.Denominator)},
@@ -1139,9 +1144,21 @@ func (g *gen) witness(b *base, vi int, v *variant, extra map[string]interface{})
 
 func fitsInt64(u uint64) bool { return u <= math.MaxInt64 }
 
+// wellFormedID: hash lengths a block id may have (types.ValidateHash: empty or 32
+// bytes).  The implementation panics when asked for the sign bytes of any other
+// id; completeness is not demanded there (a panic is "did not accept").
+func wellFormedID(b types.BlockID) bool {
+	ok := func(h []byte) bool { return len(h) == 0 || len(h) == 32 }
+	return ok(b.Hash) && ok(b.PartSetHeader.Hash)
+}
+
 func (g *gen) evaluate(b *base, vi int, v *variant, cache *ref.SigCache, st stats) {
 	c := g.c
 	c.Eval()
+	wf := wellFormedID(v.blockID) && wellFormedID(v.commit.BlockID)
+	if !wf {
+		st["info.block-id-with-malformed-hash-length(soundness only)"]++
+	}
 	mutName := strings.Join(v.muts, " + ")
 	if mutName == "" {
 		mutName = "genuine"
@@ -1200,14 +1217,14 @@ func (g *gen) evaluate(b *base, vi int, v *variant, cache *ref.SigCache, st stat
 			}
 			c.Violation(key, what, g.witness(b, vi, v, byIdx()))
 		}
-		if !ok && want && tr.AllNonAbsentValid {
+		if !ok && want && tr.AllNonAbsentValid && wf {
 			c.Violation(name+"-rejects-valid-commit", fmt.Sprintf("%s rejected a commit all of whose signatures are valid and whose for-block power %s of %s exceeds 2/3; mutation: %s",
 				name, tr.ForBlock, tr.Total, mutName), g.witness(b, vi, v, byIdx()))
 		}
 	}
 	check("VerifyCommit", fullOK)
 	check("VerifyCommitLight", lightOK)
-	if tr.Structural == nil && tr.AllNonAbsentValid && fullOK != lightOK {
+	if tr.Structural == nil && tr.AllNonAbsentValid && wf && fullOK != lightOK {
 		c.Violation("full-and-light-disagree-on-all-valid-commit", "VerifyCommit and VerifyCommitLight disagree on a commit all of whose signatures are valid; mutation: "+mutName,
 			g.witness(b, vi, v, byIdx()))
 	}
@@ -1263,7 +1280,7 @@ func (g *gen) evaluate(b *base, vi int, v *variant, cache *ref.SigCache, st stat
 		c.Violation(key, fmt.Sprintf("VerifyCommitLightTrusting(%d/%d) returned nil but distinct valid for-block power is %s of %s (needs den*sum > num*total); mutation: %s",
 			num, den, tt.ForBlock, tt.Total, mutName), g.witness(b, vi, v, byAddr()))
 	}
-	if !trustOK && twant && tt.AllValid && !tt.DoubleSigner && !overflow {
+	if !trustOK && twant && tt.AllValid && !tt.DoubleSigner && !overflow && wf {
 		c.Violation("VerifyCommitLightTrusting-rejects-valid-commit", fmt.Sprintf("VerifyCommitLightTrusting(%d/%d) rejected a commit with valid signatures only, no repeated signer, and for-block power %s of %s; mutation: %s",
 			num, den, tt.ForBlock, tt.Total, mutName), g.witness(b, vi, v, byAddr()))
 	}
@@ -1271,7 +1288,7 @@ func (g *gen) evaluate(b *base, vi int, v *variant, cache *ref.SigCache, st stat
 	// ---- coverage bookkeeping
 	nonTrivial := tr.NonAbsent > 0
 	if nonTrivial {
-		c.Distinct("case", b.idx, vi)
+		c.Distinct("case", b.stream, b.idx, vi)
 		n := len(v.vals.Validators)
 		if c.Distinct("class", "byindex", mutName, dc, nBucket(n), b.dist, want, tr.AllNonAbsentValid, fullOK, lightOK) {
 			st["classes.byindex"]++
@@ -1282,7 +1299,7 @@ func (g *gen) evaluate(b *base, vi int, v *variant, cache *ref.SigCache, st stat
 	} else {
 		st["variants.trivial(no non-absent slot)"]++
 	}
-	if b.idx < 5 && vi == 1 {
+	if b.sample == vi {
 		w := g.witness(b, vi, v, byIdx())
 		for k, x := range byAddr() {
 			if k == "oracle" {
@@ -1339,15 +1356,18 @@ func (g *gen) runBase(idx int, st stats) {
 
 func Run(c *verdict.Ctx) int {
 	c.Level = "exploration"
-	c.Rule = "a case is (validator set, commit, call parameters, trust level) = base #i of the seeded stream, variant j (0 genuine, 1..7 with 1-3 mutations); all three entry points are called on it and compared with the big-integer reference. Counted as distinct non-trivial: (a) each (i,j) whose commit has at least one non-absent slot (so at least one signature was verified by the reference), (b) each new class (entry-point family, mutation names, distance of the valid for-block power from the threshold in {<-1,-1,0,+1,>+1}, size bucket, power distribution / trust-level class, reference verdict and validity flags, real verdicts)"
+	c.Rule = "a case is (validator set, commit, call parameters, trust level) = base #i of the seeded stream, variant j (0 genuine, 1..7 with 1-3 mutations); all three entry points are called on it and compared with the big-integer reference. Counted as distinct non-trivial: (a) each (i,j) whose commit has at least one non-absent slot (so at least one signature was verified by the reference), (b) each new class (entry-point family, mutation names, distance of the valid for-block power from the threshold in {<-1,-1,0,+1,>+1}, size bucket, power distribution / trust-level class, reference verdict and validity flags, real verdicts). Second stream \"relabel\": case #i = a commit whose commit-flagged slots carry genuine signatures of the right validators over ANOTHER message (nil precommit / block id differing in one field / other round, height, chain, vote type, timestamp) for every shape of commit.BlockID that Commit.ValidateBasic admits, the forged share of power spread over 0..100%, evaluated as 3 variants (trust levels, trusted sets) by the same comparison and additionally wrapped in a header with arbitrary AppHash for light.VerifyAdjacent / VerifyNonAdjacent; distinct by (stream, i, variant) and by (family, id shape, forged-power class, genuine-power class, verdicts)"
 	c.Assume("ed25519 (Go standard library) and the generated protobuf marshaller of tmproto.CanonicalVote are shared with the implementation",
 		"sign bytes = uvarint length prefix + CanonicalVote{type,height,round,block_id,timestamp,chain_id} as re-built in ref/tally.go from spec/core/encoding.md",
-		"types.ValidatorSet / types.Commit are used as plain data; sets are built with types.NewValidatorSet (sorting, total <= MaxTotalVotingPower)")
+		"types.ValidatorSet / types.Commit are used as plain data; sets are built with types.NewValidatorSet (sorting, total <= MaxTotalVotingPower)",
+		"the marshaller-based reference sign bytes are cross-examined in every relabel case against ref.CanonicalVoteSignBytesByHand (written from canonical.proto: block_id absent iff the id is the zero id)",
+		"light.Verify* stage: Header.Hash(), ValidatorSet.Hash() and the header/time checks of light.verifyNewHeaderAndVals are trusted; only the commit decision is judged")
 	if rp := c.Replay(); rp != "" {
 		// re-run the one base case (all its variants) named by the witness, under the witness's seed
 		var w struct {
-			Case int    `json:"case"`
-			Seed *int64 `json:"seed"`
+			Stream string `json:"stream"`
+			Case   int    `json:"case"`
+			Seed   *int64 `json:"seed"`
 		}
 		if err := verdict.LoadReplay(rp, &w); err != nil {
 			c.HarnessError("cannot load replay file: %v", err)
@@ -1358,7 +1378,11 @@ func Run(c *verdict.Ctx) int {
 		}
 		g := &gen{c: c, pool: buildPool(c)}
 		st := stats{}
-		g.runBase(w.Case, st)
+		if w.Stream == relabelStream {
+			g.runRelabel(w.Case, st)
+		} else {
+			g.runBase(w.Case, st)
+		}
 		for k, v := range st {
 			c.Count(k, v)
 		}
@@ -1367,35 +1391,42 @@ func Run(c *verdict.Ctx) int {
 
 	g := &gen{c: c, pool: buildPool(c)}
 	nBases := c.N(2500, 187500)
+	nRelabel := c.N(3000, 150000)
 	workers := 16
 	if p := runtime.GOMAXPROCS(0); p < workers {
 		workers = p
 	}
-	var next int64 = -1
-	var wg sync.WaitGroup
 	all := make([]stats, workers)
-	for w := 0; w < workers; w++ {
-		wg.Add(1)
+	for w := range all {
 		all[w] = stats{}
-		go func(st stats) {
-			defer wg.Done()
-			for {
-				i := int(atomic.AddInt64(&next, 1))
-				if i >= nBases {
-					return
-				}
-				func() {
-					defer func() {
-						if rec := recover(); rec != nil {
-							c.HarnessError("case %d: harness panic: %v", i, rec)
-						}
-					}()
-					g.runBase(i, st)
-				}()
-			}
-		}(all[w])
 	}
-	wg.Wait()
+	parallel := func(what string, n int, fn func(i int, st stats)) {
+		var next int64 = -1
+		var wg sync.WaitGroup
+		for w := 0; w < workers; w++ {
+			wg.Add(1)
+			go func(st stats) {
+				defer wg.Done()
+				for {
+					i := int(atomic.AddInt64(&next, 1))
+					if i >= n {
+						return
+					}
+					func() {
+						defer func() {
+							if rec := recover(); rec != nil {
+								c.HarnessError("%s case %d: harness panic: %v", what, i, rec)
+							}
+						}()
+						fn(i, st)
+					}()
+				}
+			}(all[w])
+		}
+		wg.Wait()
+	}
+	parallel(stream, nBases, g.runBase)
+	parallel(relabelStream, nRelabel, g.runRelabel)
 	merged := stats{}
 	for _, st := range all {
 		for k, v := range st {
@@ -1412,9 +1443,14 @@ func Run(c *verdict.Ctx) int {
 	}
 	c.Set("bases", nBases)
 	c.Set("variants_per_base", variantsPer)
+	c.Set("relabel_cases", nRelabel)
+	c.Set("relabel_variants_per_case", relabelVariants)
 	// the property is about acceptance decisions: a run in which nothing was ever accepted or nothing ever rejected observed nothing
 	for _, k := range []string{"VerifyCommit.accept=true", "VerifyCommit.accept=false", "VerifyCommitLight.accept=true", "VerifyCommitLight.accept=false",
-		"VerifyCommitLightTrusting.accept=true", "VerifyCommitLightTrusting.accept=false", "oracle.byindex.accept.all-valid", "oracle.byindex.reject.tally"} {
+		"VerifyCommitLightTrusting.accept=true", "VerifyCommitLightTrusting.accept=false", "oracle.byindex.accept.all-valid", "oracle.byindex.reject.tally",
+		"relabel/VerifyCommit.accept=true", "relabel/VerifyCommit.accept=false", "relabel/VerifyCommitLightTrusting.accept=true", "relabel/VerifyCommitLightTrusting.accept=false",
+		"relabel/other-message-power.>2/3", "relabel/other-message-power.(1/3,2/3]", "relabel/light.VerifyAdjacent.accept=true", "relabel/light.VerifyAdjacent.accept=false",
+		"relabel/light.VerifyNonAdjacent.accept=true", "relabel/light.VerifyNonAdjacent.accept=false", "relabel/signbytes.by-hand==marshaller"} {
 		if merged[k] == 0 {
 			c.HarnessError("nothing observed for %q", k)
 		}
